@@ -205,7 +205,10 @@ def decisions(repo, strict=True):
         bad("usleep: fiber_sleep(useconds / 1000000, useconds % 1000000) not found")
     if "fiber_sleep(seconds,0);" not in norm(func_body(io, "sleep")):
         bad("sleep: fiber_sleep(seconds, 0) not found")
-    widen = bool(widen_mul) and bool(widen_ns)
+    # (if one of the two sites was not recognised, the best guess for the run-time flags is the other)
+    wm = widen_ns if widen_mul is None else widen_mul
+    wn = widen_mul if widen_ns is None else widen_ns
+    widen = bool(wm) and bool(wn)
     if widen_mul is not None and widen_ns is not None and widen_mul != widen_ns:
         bad("32-bit fix applied only in part (multiplication widened: %s, nanosleep splits tv_sec: %s): no model variant" % (widen_mul, widen_ns))
 
